@@ -4,9 +4,10 @@ import TensorModel.Ext.Engines
 import TensorModel.Ext.History
 import TensorModel.Ext.Linalg
 import TensorModel.Ext.Serial
+import TensorModel.Ext.Reduce
 /-! Registry of operation families (one import + one list entry per family). -/
 namespace TM
 
-def families : List Family := [minMaxFamily, enginesFamily, historyFamily, linalgFamily, serialFamily]
+def families : List Family := [minMaxFamily, enginesFamily, historyFamily, linalgFamily, serialFamily, reduceFamily]
 
 end TM
